@@ -2,11 +2,16 @@ use crate::proto::Driver;
 use crate::{run_op, OpResult, RunCfg};
 
 pub mod common;
+pub mod err;
+pub mod jsondoc;
 pub mod req;
+pub mod tok;
 
 pub fn dispatch(op: &str, cfg: &RunCfg, d: &mut Driver) -> Option<OpResult> {
     Some(match op {
         "req" => run_op::<req::ReqCase>(cfg, d),
+        "tok" => run_op::<tok::TokCase>(cfg, d),
+        "err" => run_op::<err::ErrCase>(cfg, d),
         _ => return None,
     })
 }
